@@ -10,12 +10,12 @@ Section C02.
 
   Theorem resolve_nosolution_sound :
     reg_wf O L reg -> (forall a b, veqb a b = true -> a = b) ->
-    forall fuel tr t st log,
-      WellBehaved O reg tr -> resolve O veqb fuel r rv tr = (ONoSolution t, st, log) ->
+    forall fuel tr t st log k,
+      WellBehaved O reg tr -> resolve O veqb fuel r rv tr = (ONoSolution t, st, log, k) ->
       forall a, ~ Solution O reg r rv a.
   Proof.
-    intros Hw Hv fuel tr t st log Hwb E.
-    exact (proj2 (resolve_store_valid O L veqb reg r rv Hw Hv fuel tr _ st log Hwb E) t eq_refl).
+    intros Hw Hv fuel tr t st log k Hwb E.
+    exact (proj2 (resolve_store_valid O L veqb reg r rv Hw Hv fuel tr _ st log k Hwb E) t eq_refl).
   Qed.
 
   (* the terminal test: a valid incompatibility that is empty, or a single term on the root containing
@@ -29,10 +29,10 @@ Section C02.
      excludes that any other run (any strategy) of the same registry returns a genuine solution *)
   Corollary nosolution_strategy_independent :
     reg_wf O L reg -> (forall a b, veqb a b = true -> a = b) ->
-    forall fuel tr t st log,
-      WellBehaved O reg tr -> resolve O veqb fuel r rv tr = (ONoSolution t, st, log) ->
+    forall fuel tr t st log k,
+      WellBehaved O reg tr -> resolve O veqb fuel r rv tr = (ONoSolution t, st, log, k) ->
       forall sol : assignment, Solution O reg r rv sol -> False.
-  Proof. intros Hw Hv fuel tr t st log Hwb E sol. exact (resolve_nosolution_sound Hw Hv fuel tr t st log Hwb E sol). Qed.
+  Proof. intros Hw Hv fuel tr t st log k Hwb E sol. exact (resolve_nosolution_sound Hw Hv fuel tr t st log k Hwb E sol). Qed.
 End C02.
 
 Print Assumptions resolve_nosolution_sound.
